@@ -1,13 +1,21 @@
 ------------------------------ MODULE MC_Remote ------------------------------
 EXTENDS Remote, Json
 CONSTANTS MaxSend, MaxPeer,   \* bounds on what sources / the peer write
+          MaxCtl,             \* bound on the control frames the peer writes
+          MCCtl,              \* the control frames the peer uses in this configuration
           MCKinds,            \* envelope kinds used by the environment in this configuration
           PathSel,            \* which DlPath table (below) this configuration uses
           OneWay              \* the clients that attach as send-only (AttachClient::OneWay)
 
 \* bounds (CONSTRAINT) and environment restriction (ACTION_CONSTRAINT)
-Bound == cnt.send <= MaxSend /\ cnt.peer <= MaxPeer
-KindFilter == (lastAct'.k \in {"peer_send", "dl_send", "agent_send"}) => lastAct'.msg.kind \in MCKinds
+Bound == cnt.send <= MaxSend /\ cnt.peer <= MaxPeer /\ cnt.ctl <= MaxCtl
+KindFilter == /\ (lastAct'.k \in {"peer_send", "peer_frag", "dl_send", "agent_send"}) => lastAct'.msg.kind \in MCKinds
+              /\ (lastAct'.k = "peer_ctl") => lastAct'.c \in MCCtl
+\* framing scenarios (ACTION_CONSTRAINT): downlink 1 attaches and stays, then the peer frames envelopes of every kind
+\* as 1..MaxFrag fragments with control frames at any point; with Settled the graph's transitions are exactly
+\* (kind, number of fragments, fragment boundary, control frame) - a transition cover samples each of them
+FragFocus == /\ (lastAct'.k \in {"peer_send", "peer_frag", "peer_ctl"}) => dl[1].st = "att"
+             /\ lastAct'.k \notin {"dl_detach", "agent_stop", "agent_send", "dl_send"}
 \* the path each downlink attaches to / writes to (cfg files cannot spell tuples, hence the selector)
 PathsA == << <<"n2", "l1">>, <<"n2", "l1">>, <<"n2", "l2">>, <<"n1", "l2">> >>     \* two downlinks share a lane, one on a sibling lane
 PathsB == << <<"n1", "l1">>, <<"n2", "l1">>, <<"n1", "l2">>, <<"n2", "l2">> >>     \* same lane name on two nodes, two lanes of one node
@@ -24,7 +32,10 @@ DlScript == /\ (lastAct'.k = "attach_req") =>
             /\ (lastAct'.k = "attach_req") => lastAct'.d \notin OneWay
             /\ (lastAct'.k = "dl_send") => <<lastAct'.msg.node, lastAct'.msg.lane>> = DlPath[lastAct'.d]
 \* reading from a channel commutes with everything else: do it first (partial-order reduction by hand)
-Urgent == (\E s \in Srcs : inbox[s] # <<>> /\ ~SrcGone(s)) => lastAct'.k = "recv"
+\* so does ratchet's reading of the next web socket frame (it only moves data between two FIFOs)
+CanRecv == \E s \in Srcs : inbox[s] # <<>> /\ ~SrcGone(s)
+Urgent == /\ CanRecv => lastAct'.k = "recv"
+          /\ (~CanRecv /\ CanWsRead) => lastAct'.k = "ws_read"
 
 \* "settled" exploration (ACTION_CONSTRAINT): the task finishes whatever it can do before the environment
 \* moves again.  Together with TblView (no counters: the socket is always drained, so the space is finite
@@ -32,12 +43,12 @@ Urgent == (\E s \in Srcs : inbox[s] # <<>> /\ ~SrcGone(s)) => lastAct'.k = "recv
 \* one lane / two lanes / stale writer in an entry / lane emptied / node emptied, per node - and a cover of
 \* this graph's transitions is a cover of every table update the incoming half can perform.
 TaskCanStep == \/ ~closed /\ \/ pendIn # <<>> \/ pendOut # <<>> \/ resolving # NoMsg \/ sys # <<>>
-                             \/ wireIn # <<>>
+                             \/ wireIn # <<>> \/ wsIn # <<>>
                              \/ \E s \in regOut : out[s] # <<>>
                \/ \E s \in regOut : out[s] = <<>> /\ SrcGone(s)
                \/ \E d \in Dls : dl[d].st = "req" /\ d \in inDone /\ d \in outDone
-Settled == TaskCanStep => lastAct'.k \in {"reg_in", "reg_out", "route", "find", "wire_out", "mux_end", "attach_done"}
-TblView == <<subs, routes, inst, alive, dl, pendIn, pendOut, inDone, outDone, regOut, out, inbox, sys, wireIn, resolving, closed>>
+Settled == TaskCanStep => lastAct'.k \in {"ws_read", "reg_in", "reg_out", "route", "find", "wire_out", "mux_end", "attach_done"}
+TblView == <<subs, routes, inst, alive, dl, pendIn, pendOut, inDone, outDone, regOut, out, inbox, sys, wireIn, resolving, closed, wsIn, sending, asm>>
 TblEdgeDump == PrintT(<<"EDGE", ToJson([s |-> TblView, a |-> lastAct', t |-> TblView'])>>)
 TblInitDump == (lastAct.k = "init") => PrintT(<<"INIT", ToJson(TblView)>>)
 
